@@ -6,6 +6,9 @@ live in an importable module because pickle stores classes by reference
 Nothing in here judges anything."""
 from __future__ import annotations
 
+from dataclasses import field
+from typing import ClassVar
+
 import pymbolic.primitives as p
 from pymbolic.mapper.persistent_hash import PersistentHashWalkMapper
 
@@ -46,6 +49,91 @@ class C17Names(p.Expression):
     """user node with a tuple-of-strings field and a children tuple"""
     names: tuple
     children: tuple
+
+
+# ------------------------- dataclass nodes using more of the dataclass machinery
+# (round 2) field order != positional order of __init__ / __match_args__, fields
+# that __init__ does not take, defaults, class variables, a second level of
+# inheritance.  What has to survive a pickle is the tuple of ALL fields, under
+# their own names.
+@p.expr_dataclass()
+class C17Kw(p.Variable):
+    """keyword-only field declared before a positional one: fields (name, tag,
+    index), positional parameters (name, index)"""
+    tag: str = field(kw_only=True, default="")
+    index: object = 0
+
+
+@p.expr_dataclass()
+class C17KwMid(p.Expression):
+    """keyword-only tuple-of-strings field between two positional ones"""
+    operation: str
+    inames: tuple = field(kw_only=True, default=())
+    expr: object = 0
+
+
+@p.expr_dataclass()
+class C17Init(p.Expression):
+    """a field __init__ does not take (derived in __post_init__), declared
+    between two it does take"""
+    name: str
+    label: str = field(init=False)
+    child: object
+
+    def __post_init__(self):
+        object.__setattr__(self, "label", "L:" + self.name)
+
+
+@p.expr_dataclass()
+class C17Dfl(p.Expression):
+    """defaults on every field but the first, an init=False field with a
+    default and a class variable (not a field)"""
+    name: str
+    child: object = 0
+    tag: str = "dflt"
+    count: int = field(init=False, default=7)
+    kind: ClassVar[str] = "k"
+
+
+@p.expr_dataclass()
+class C17Kw2(C17Kw):
+    """second level: dataclass node derived from a user dataclass node"""
+    extra: object = 1
+
+
+def _mk_kw(cls):
+    def mk(s, c, omit):
+        pos = list(c)
+        while omit and pos and pos[-1] == (0, 1)[len(pos) - 1]:
+            pos.pop()              # trailing positional arguments equal to the defaults (0, 1)
+        kw = {} if omit and s[1] == "" else {"tag": s[1]}
+        return cls(s[0], *pos, **kw)
+    return mk
+
+
+def _mk_kw_mid(s, c, omit):
+    pos = [] if omit and c[0] == 0 else [c[0]]
+    kw = {} if omit and not s[1:] else {"inames": tuple(s[1:])}
+    return C17KwMid(s[0], *pos, **kw)
+
+
+def _mk_init(s, c, omit):
+    return C17Init(s[0], c[0])
+
+
+def _mk_dfl(s, c, omit):
+    pos = [c[0], s[1]]
+    if omit and pos[1] == "dflt":
+        pos.pop()
+        if pos[0] == 0:
+            pos.pop()
+    return C17Dfl(s[0], *pos)
+
+
+# how a catalogue record User(cls, s, c) of these classes becomes a constructor call;
+# omit: arguments equal to the field defaults are left out
+MAKE = {"C17Kw": _mk_kw(C17Kw), "C17Kw2": _mk_kw(C17Kw2), "C17KwMid": _mk_kw_mid,
+        "C17Init": _mk_init, "C17Dfl": _mk_dfl}
 
 
 # -------------------------------------------------- legacy init-args subclasses
@@ -95,7 +183,7 @@ def _ga():
 
 CLASSES = {c.__name__: c for c in
            (C17Pair, C17Tagged, C17Unit, C17NoHash, C17Names, C17Old, C17OldLeaf, C17OldVar,
-            *_ga())}
+            C17Kw, C17KwMid, C17Init, C17Dfl, C17Kw2, *_ga())}
 
 
 # ----------------------------------------------------------- persistent hashing
@@ -179,4 +267,48 @@ class C17PersistentHash(PersistentHashWalkMapper):
             return
         self._s(expr.name)
         self._s(expr.extra)
+        self.post_visit(expr)
+
+    # round 2 classes: every field, in field order
+    def map_c17kw(self, expr):
+        if not self.visit(expr):
+            return
+        self._s(expr.name)
+        self._s(expr.tag)
+        self.rec(expr.index)
+        self.post_visit(expr)
+
+    def map_c17kw2(self, expr):
+        if not self.visit(expr):
+            return
+        self._s(expr.name)
+        self._s(expr.tag)
+        self.rec(expr.index)
+        self.rec(expr.extra)
+        self.post_visit(expr)
+
+    def map_c17kw_mid(self, expr):
+        if not self.visit(expr):
+            return
+        self._s(expr.operation)
+        for n in expr.inames:
+            self._s(n)
+        self.rec(expr.expr)
+        self.post_visit(expr)
+
+    def map_c17init(self, expr):
+        if not self.visit(expr):
+            return
+        self._s(expr.name)
+        self._s(expr.label)
+        self.rec(expr.child)
+        self.post_visit(expr)
+
+    def map_c17dfl(self, expr):
+        if not self.visit(expr):
+            return
+        self._s(expr.name)
+        self.rec(expr.child)
+        self._s(expr.tag)
+        self._s(expr.count)
         self.post_visit(expr)
